@@ -41,3 +41,5 @@ func randU64(r *rand.Rand) uint64 {
 		return r.Uint64()
 	}
 }
+
+func newRand(seed int64) *rand.Rand { return rand.New(rand.NewSource(seed)) }
